@@ -188,4 +188,42 @@ theorem SRel.top {a b : Stack V} {fa fb : List Fork} (h : SRel a fa b fb) : a.to
       unfold Stack.top? Stack.blockAt?
       simp [h0, hb, g0, gb]
 
+theorem save_facts (s : Stack V) :
+    s.save.1 = (s.index, s.limit) ∧ s.save.2.data = s.data ∧ s.save.2.index = s.index ∧
+    s.save.2.limit = max s.index s.limit := by
+  unfold Stack.save
+  by_cases h : s.index > s.limit
+  · rw [if_pos h]
+    refine ⟨rfl, rfl, rfl, ?_⟩
+    show s.index = _
+    omega
+  · rw [if_neg h]
+    refine ⟨rfl, rfl, rfl, ?_⟩
+    show s.limit = _
+    omega
+
+/-- `pushfork`: both sides save their index and limit in a new fork -/
+theorem SRel.save {a b : Stack V} {fa fb : List Fork} (h : SRel a fa b fb) (f g : Fork)
+    (hc : ForkCore f g) (hf1 : f.stackindex = a.save.1.1) (hf2 : f.stacklimit = a.save.1.2)
+    (hg1 : g.stackindex = b.save.1.1) (hg2 : g.stacklimit = b.save.1.2) :
+    SRel a.save.2 (f :: fa) b.save.2 (g :: fb) := by
+  obtain ⟨⟨xs, c1, c2⟩, hf, la, lb, fwa, fwb⟩ := h
+  obtain ⟨a0, a1, a2, a3⟩ := save_facts a
+  obtain ⟨b0, b1, b2, b3⟩ := save_facts b
+  rw [a0] at hf1 hf2
+  rw [b0] at hg1 hg2
+  simp only at hf1 hf2 hg1 hg2
+  have hi1 := c1.index_lt
+  have hi2 := c2.index_lt
+  refine ⟨⟨xs, ?_, ?_⟩, ⟨hc, ⟨xs, ?_, ?_⟩, ?_⟩, ?_, ?_, ?_, ?_⟩
+  · rw [a1, a2]; exact c1
+  · rw [b1, b2]; exact c2
+  · rw [a1, hf1]; exact c1
+  · rw [b1, hg1]; exact c2
+  · rw [a1, b1]; exact hf
+  · rw [a1, a3]; omega
+  · rw [b1, b3]; omega
+  · rw [a3]; exact ⟨by omega, by omega, by omega, by rw [hf2]; exact fwa⟩
+  · rw [b3]; exact ⟨by omega, by omega, by omega, by rw [hg2]; exact fwb⟩
+
 end Gojq.OptVM
